@@ -71,15 +71,16 @@ const (
 	opRelax  // fast solver only
 	opDepth0 // network only
 	opDepth1 // network only
+	opFlush  // a flush inside a history or a continuation
 )
 
-var c13OpNames = []string{"Load(0.5)", "Load(-1.5)", "Forward(1)", "Forward(2)", "Recursive", "Relax(3,1e-9)", "Depth(0)", "Depth(1)"}
+var c13OpNames = []string{"Load(0.5)", "Load(-1.5)", "Forward(1)", "Forward(2)", "Recursive", "Relax(3,1e-9)", "Depth(0)", "Depth(1)", "Flush"}
 
 func c13Alphabet(fast bool) []int {
 	if fast {
-		return []int{opLoad1, opLoad2, opFwd1, opFwd2, opRecursive, opRelax}
+		return []int{opLoad1, opLoad2, opFwd1, opFwd2, opRecursive, opRelax, opFlush}
 	}
-	return []int{opLoad1, opLoad2, opFwd1, opFwd2, opRecursive, opDepth0, opDepth1}
+	return []int{opLoad1, opLoad2, opFwd1, opFwd2, opRecursive, opDepth0, opDepth1, opFlush}
 }
 
 func c13Seqs(alpha []int, maxLen int) [][]int {
@@ -193,6 +194,8 @@ func (in *c13Inst) apply(op int, b *strings.Builder) {
 			res, err = solver.RecursiveSteps()
 		case opRelax:
 			res, err = solver.Relax(3, 1e-9)
+		case opFlush:
+			res, err = solver.Flush()
 		case opDepth0, opDepth1:
 			var d int
 			d, err = in.net.MaxActivationDepthWithCap(op - opDepth0)
@@ -392,7 +395,7 @@ func runC13(c *Ctx) {
 	})
 	c.States = int64(len(c.distinct))
 	c.Sample(map[string]interface{}{"network": c13Spec(c13Shape{1}, 0b10_01_0110, true, false).Short(), "history": opsString([]int{opLoad1, opRecursive}), "continuation": opsString([]int{opLoad2, opFwd1, opFwd2})})
-	c.Rule = fmt.Sprintf("networks: ALL digraphs over {bias, input, output, hidden} (4 neuron->neuron edges incl. self-loops and output->hidden, 4 sensor->neuron edges; the output precedes the hidden node in the node list)%s, each in two variants (plain; cycle-closing edges flagged recurrent and time-delayed in the standard network + mixed activation types); solvers: standard Network, the fast solver derived from it, and a fast solver constructed directly through NewFastModularNetworkSolver with the bias links as ordinary connections; alphabet: Load(0.5), Load(-1.5), Forward(1), Forward(2), Recursive, Relax(3,1e-9) [fast], Depth(0), Depth(1) [network]; every history h of length 1..%d and every continuation s of length 1..%d: outputs, boolean results and errors of every step of s after (h; Flush) must equal those on a fresh instance bit for bit. states = distinct (network, solver, variant), transitions = (h,s) pairs compared",
+	c.Rule = fmt.Sprintf("networks: ALL digraphs over {bias, input, output, hidden} (4 neuron->neuron edges incl. self-loops and output->hidden, 4 sensor->neuron edges; the output precedes the hidden node in the node list)%s, each in two variants (plain; cycle-closing edges flagged recurrent and time-delayed in the standard network + mixed activation types); solvers: standard Network, the fast solver derived from it, and a fast solver constructed directly through NewFastModularNetworkSolver with the bias links as ordinary connections; alphabet: Load(0.5), Load(-1.5), Forward(1), Forward(2), Recursive, Relax(3,1e-9) [fast], Depth(0), Depth(1) [network], Flush; every history h of length 1..%d and every continuation s of length 1..%d: outputs, boolean results and errors of every step of s after (h; Flush) must equal those on a fresh instance bit for bit. states = distinct (network, solver, variant), transitions = (h,s) pairs compared",
 		map[bool]string{true: " plus six hand-picked two-hidden recurrent networks", false: " and ALL digraphs over {bias, input, output, 2 hidden} (9 + 6 edges; histories and continuations of length <= 2 for these)"}[c.Quick()], hl, sl)
 	c.Assume("observations are the outputs, results and errors after every operation (node-internal state is observed only through them)")
 }
